@@ -353,3 +353,87 @@ Proof.
   - apply gb_forallb. reflexivity.
   - vm_compute. auto.
 Qed.
+
+(* ================================================================ round 4 *)
+Require Import QV.C13.HeapCheck QV.C13.ProofsHeapCheck.
+
+(* THE HEAP RUN OF check_corr: a labelling (object identities handed over by the harness) that passes the executable
+   admission test satisfies the hypotheses of C13_heap_histories from the empty store: the heap run compared with the
+   implementation IS the run of the tree model and of the cache-free paths, for every history *)
+Theorem C13_heap_admission : forall s l nx ops, lab_okb s l nx = true ->
+  reg_ok (mkreg s l) s l /\ gb nx (mkreg s l) /\
+  hrun_full (s, l, [], nx) ops = prun s ops /\ hrun_full (s, l, [], nx) ops = run (s, cempty) ops.
+Proof.
+  intros s l nx ops H. destruct (lab_okb_sound s l nx H) as [Hr Hb]. split; [exact Hr|]. split; [exact Hb|].
+  exact (C13_heap_histories (mkreg s l) s l [] nx ops Hr (sok_empty _) Hb).
+Qed.
+Print Assumptions C13_heap_admission.
+
+(* the test accepts the shared graph of C13_heap_satisfiable and rejects one id used for two different structures *)
+Example C13_heap_admission_nontrivial :
+  lab_okb ex_J ex_lJ 4 = true /\
+  lab_okb (SJoint [(0%N, SDict [(0%N, 1#1)] []); (1%N, SDict [(1%N, 1#1)] [])]) (L 3 [L 1 []; L 1 []]) 4 = false.
+Proof. split; vm_compute; reflexivity. Qed.
+
+Require Import QV.C13.TEq QV.C13.ProofsTEq.
+
+(* `==` OF THE CODE WITH THE NUMBER KIND OF EXPRESSION CONSTANTS (Expression.__eq__ is sympy-structural: Integer(1) is not
+   Float(1.0); DictScope constants and loop index values are compared by value).  It refines the value-based == of the
+   model (so equal scopes denote the same mapping, report the same volatile parameters and, by C13_eq_hash, hash alike
+   in the hash model), strictly; it is an equivalence on well-formed scopes; scopes of different classes are unequal *)
+Theorem C13_typed_eq_refines : forall a b, tscope_eqb a b = true -> scope_eqb (erase_s a) (erase_s b) = true.
+Proof. exact tscope_eqb_erase. Qed.
+Print Assumptions C13_typed_eq_refines.
+
+Theorem C13_typed_eq_strict : exists a b, twf a = true /\ twf b = true /\
+  scope_eqb (erase_s a) (erase_s b) = true /\ tscope_eqb a b = false.
+Proof.
+  exists (TSMapped (TSDict [] []) [(0%N, TConst false 1)]), (TSMapped (TSDict [] []) [(0%N, TConst true 1)]).
+  repeat split; reflexivity.
+Qed.
+Print Assumptions C13_typed_eq_strict.
+
+Theorem C13_typed_eq_refl : forall s, twf s = true -> tscope_eqb s s = true.
+Proof. exact tscope_eqb_refl. Qed.
+Print Assumptions C13_typed_eq_refl.
+
+Theorem C13_typed_eq_sym : forall a b, twf a = true -> twf b = true -> tscope_eqb a b = tscope_eqb b a.
+Proof. exact tscope_eqb_sym. Qed.
+Print Assumptions C13_typed_eq_sym.
+
+Theorem C13_typed_eq_trans : forall a b c, twf a = true -> twf b = true -> twf c = true ->
+  tscope_eqb a b = true -> tscope_eqb b c = true -> tscope_eqb a c = true.
+Proof. intros a b c Ha Hb Hc. exact (tscope_eqb_trans a Ha b c Hb Hc). Qed.
+Print Assumptions C13_typed_eq_trans.
+
+Theorem C13_typed_wf : forall s, twf s = wf_scope (erase_s s).
+Proof. intros s. symmetry. apply twf_erase. Qed.
+Print Assumptions C13_typed_wf.
+
+(* CHANGE with number kinds: change_constants (which keeps the mapping expression objects and replaces DictScope values,
+   compared by value whatever their Python number type) yields exactly the typed structure rebuilt from the changed
+   constants; that structure is well-formed iff the old one is, the code's == accepts the two as equal, and its erasure
+   is the result of the model's change_constants *)
+Theorem C13_typed_change_eq : forall s c nc,
+  fst (tcc s nc) = trebuild s nc /\
+  twf (trebuild s nc) = twf s /\
+  (twf s = true -> tscope_eqb (fst (tcc s nc)) (trebuild s nc) = true) /\
+  erase_s (fst (tcc s nc)) = ch_scope (cc (erase_s s) c nc) /\
+  erase_s (trebuild s nc) = rebuild (erase_s s) nc.
+Proof.
+  intros s c nc. split; [exact (proj1 (tcc_trebuild s nc))|]. split; [apply twf_trebuild|].
+  split; [apply tcc_eq_trebuild|]. split; [apply tcc_erase_cc|apply erase_trebuild].
+Qed.
+Print Assumptions C13_typed_change_eq.
+
+(* non-vacuity: Scope.overwrite with 1 and with 1.0 gives scopes with the same mapping that the code calls different;
+   after change_constants each is equal to its own rebuilt twin *)
+Example C13_typed_satisfiable :
+  let d := TSDict [(0%N, 1#1); (2%N, 3#1)] [2%N] in
+  let a := toverwrite d [(0%N, (false, 1#1))] in
+  let b := toverwrite d [(0%N, (true, 1#1))] in
+  twf a = true /\ tscope_eqb a b = false /\ scope_eqb (erase_s a) (erase_s b) = true /\
+  snd (tcc a [(2%N, 9#1)]) = false /\ tscope_eqb (fst (tcc a [(2%N, 9#1)])) (trebuild a [(2%N, 9#1)]) = true /\
+  tscope_eqb (fst (tcc a [(2%N, 9#1)])) (trebuild b [(2%N, 9#1)]) = false /\
+  tscope_eqb a d = false /\ tscope_eqb d (TSJoint [(0%N, d)]) = false.
+Proof. vm_compute. repeat split; reflexivity. Qed.
